@@ -220,6 +220,39 @@ def fire (s : St) : Action → Option St
   | .initDone => if s.initDone then none else some (taskDone { s with initDone := true })
   | .stop => some { s with stopped := true }
 
+/-! The wait loop as the regenerated facts describe it.  The pinned code tests nothing before `WaitForBuild`; a
+state test placed there (`if t.State() >= X { continue }`) would let the queuer pass a dependency in a state of
+rank `>= X` without waiting for it and without the DependencyFailed check.  `fireG` is `fire` generalised by that
+optional test: the drivers run `fireG` at the value extracted from the code, the theorems are about `fire`
+(`= fireG … none`, which is what the facts obligation establishes for the code at hand). -/
+
+def skipsAt (skip : Option Nat) (x : TS) : Bool :=
+  match skip with
+  | some k => decide (k ≤ x.rank)
+  | none => false
+
+def queuerStepG (skip : Option Nat) (s : St) (i : Nat) (q : Queuer) : Option St :=
+  match q.ph with
+  | .waitDeps (d :: r) =>
+    if skipsAt skip (s.st d) then some { s with qs := upd s.qs i (some { q with ph := .waitDeps r }) }
+    else queuerStep c s i q
+  | _ => queuerStep c s i q
+
+def fireG (skip : Option Nat) (s : St) : Action → Option St
+  | .queuer i =>
+    match s.qs i with
+    | some q => queuerStepG c skip s i q
+    | none => none
+  | a => fire c s a
+
+theorem fireG_none (s : St) (a : Action) : fireG c none s a = fire c s a := by
+  cases a <;> simp only [fireG, fire]
+  split
+  · rename_i q _
+    simp only [queuerStepG, skipsAt]
+    split <;> simp
+  · rfl
+
 def Step (s s' : St) : Prop := ∃ a, fire c s a = some s'
 
 inductive Reach : St → Prop
